@@ -112,8 +112,8 @@ def run(ctx):
     # reset_peer on real sockets is a scenario family of its own (an in-memory link cannot carry a TCP reset)
     def side(ctx2, proof):
         from . import tcp as T
-        f1, c1 = T.reset_peer_runs(ctx2, (12 if ctx2.tier == "quick" else 300) * (1 if proof["build_ok"] else 3))
-        f2, c2 = T.slow_close_runs(ctx2, (12 if ctx2.tier == "quick" else 300) * (1 if proof["build_ok"] else 3))
+        f1, c1 = T.stable(lambda: T.reset_peer_runs(ctx2, (12 if ctx2.tier == "quick" else 300) * (1 if proof["build_ok"] else 3)))
+        f2, c2 = T.stable(lambda: T.slow_close_runs(ctx2, (12 if ctx2.tier == "quick" else 300) * (1 if proof["build_ok"] else 3)))
         c1.update(c2)
         return f1 + f2, c1
 
